@@ -192,16 +192,17 @@ def check(ck):
     # a list's elements positionally in order, or a dictionary's items by keyword; anything else is a TranslationError
     # raised before any constructor runs
     a_, b_ = shape.Sym("arg0", pytype=int), shape.Sym("arg1", pytype=str)
-    for cname in ("Cls", "pkg.mod.Cls"):
+    for (cname, table) in (("Cls", "own"), ("pkg.mod.Cls", None), ("pkg.mod.Cls", "other")):
         for (label, params, want) in (("[a, b]", lambda: shape.L([a_, b_]), ([a_, b_], {})), ("[]", lambda: shape.L([]), ([], {})),
                                       ("{'x': a, 'y': b}", lambda: shape.D({"x": a_, "y": b_}), ([], {"x": a_, "y": b_})),
                                       ("'text'", lambda: shape.K("text"), None), ("5", lambda: shape.K(5), None),
                                       ("None", lambda: shape.K(None), None)):
             ev = shape.Evaluator(prog, "jsonclass", lenient=True)
             res = ev.run(fl, {"obj": shape.D({"__jsonclass__": shape.L([shape.K(cname), params()])}),
-                              "classes": shape.D({"Cls": shape.Opaque("the class")}) if cname == "Cls" else shape.K(None)})
+                              "classes": shape.D({"Cls": shape.Opaque("the class")}) if table == "own" else
+                              (shape.D({"Other": shape.Opaque("another class")}) if table == "other" else shape.K(None))})
             calls = [c for c in getattr(ev, "opaque_calls", []) if c[1] == "__call__"]
-            where = "%s[name=%s, params=%s]" % (q.fn(fl), cname, label)
+            where = "%s[name=%s%s, params=%s]" % (q.fn(fl), cname, ", class table without it" if table == "other" else "", label)
             if want is None:
                 okk = len(res) >= 1 and all(o[0] == "raise" and o[1] == "TranslationError" for (_d, o) in res) and not calls
                 ck.require(okk, "C07.5", where, "TranslationError, no constructor call",
@@ -209,6 +210,15 @@ def check(ck):
                            "TranslationError" % (label, [o[:2] for (_d, o) in res], len(calls)), q.loc(fl, fl.node))
             else:
                 okk = len(res) == 1 and res[0][1][0] == "return" and len(calls) == 1 and calls[0][2] == want[0] and calls[0][3] == want[1]
+                if okk:
+                    # which object is instantiated: the entry of the class table for a bare name found there, the attribute of the
+                    # imported module for a dotted name
+                    who = calls[0][0]
+                    right = (who == "the class") if cname == "Cls" else (who.startswith("opaque:getattr(") or who.startswith("opaque:__import__"))
+                    ck.require(right, "C07.5", where + " class", "class table entry / attribute of the imported module",
+                               "for the class name %r (%s) the object instantiated is %s: a class registered in the configuration's "
+                               "table is not the one used (or a dotted name is not resolved through its module)"
+                               % (cname, "registered in the class table" if cname == "Cls" else "module path", who), q.loc(fl, fl.node))
                 ck.require(okk, "C07.5", where, "one constructor call with the arguments as given",
                            "with constructor arguments %s the class is called %s (outcome %s); required: the list's elements "
                            "positionally in order, or the dictionary's items by keyword" %
@@ -217,6 +227,35 @@ def check(ck):
                     ck.require(isinstance(res[0][1][1], shape.Opaque) and res[0][1][1].label.endswith("()"), "C07.5", where + " result",
                                "the constructed object is returned", "load returns %r instead of the constructed object" % (res[0][1][1],),
                                q.loc(fl, fl.node))
+    # dump() of an object with a custom serialisation method, evaluated abstractly (E7): the method named by the argument / the
+    # configuration is called once without arguments and its (params, attrs) result becomes the descriptor and the fields
+    for (how, argname, cfgname) in (("configured name", None, "_serialize"), ("custom configured name", None, "to_wire"),
+                                    ("name given as argument", "pack", "_serialize")):
+        mname = argname or cfgname
+        params_v, attrs_v = shape.L([shape.K(1), shape.K("two")]), shape.D({"x": shape.K(3), "y": shape.K(None)})
+        meth = shape.Opaque("the serialisation method", {"()": shape.L([params_v, attrs_v])})
+        bean = shape.Opaque("bean", {mname: meth, "__class__": shape.Opaque("class", {"__name__": shape.K("Bean")})})
+        bean.closed = True
+        cfgo = shape.Opaque("Config", {"serialize_method": shape.K(cfgname), "ignore_attribute": shape.K("_ignore"), "serialize_handlers": shape.D({})})
+        ev = shape.Evaluator(prog, "jsonclass", lenient=True)
+        res = ev.run(fdump, {"obj": bean, "serialize_method": shape.K(argname), "ignore_attribute": shape.K(None), "ignore": shape.K(None), "config": cfgo})
+        calls = [c for c in getattr(ev, "opaque_calls", []) if c[0] == "the serialisation method"]
+        problems = []
+        if len(res) != 1 or res[0][1][0] != "return" or not isinstance(res[0][1][1], shape.D):
+            problems.append("dump does not return a dictionary (%r)" % ([o[:2] for (_d, o) in res],))
+        else:
+            out = res[0][1][1].items
+            desc = out.get("__jsonclass__")
+            if not (isinstance(desc, shape.L) and len(desc.elts) == 2 and desc.elts[1] is params_v):
+                problems.append("the descriptor is %r, not [<class name>, <params returned by the method>]" % (desc,))
+            rest = dict((k, v) for k, v in out.items() if k != "__jsonclass__")
+            if set(rest) != set(attrs_v.items) or any(rest[k] is not attrs_v.items[k] for k in rest):
+                problems.append("the fields are %r, not the attrs returned by the method %r" % (rest, attrs_v.items))
+        if len(calls) != 1 or calls[0][2] or calls[0][3]:
+            problems.append("the method is called %d time(s) (%r)" % (len(calls), [(c[2], c[3]) for c in calls]))
+        ck.require(not problems, "C07.5", "%s: object with a serialisation method (%s `%s`)" % (q.fn(fdump), how, mname),
+                   "{'__jsonclass__': [name, params], **attrs} from one call of obj.%s()" % mname,
+                   "dumping an object whose class defines the serialisation method `%s` (%s): %s" % (mname, how, "; ".join(problems)), q.loc(fdump, fdump.node))
     dgd = dominators(gd)
     for fn_, want in (("utils.is_decimal", "[str(obj)]"), ("utils.is_enum", "[obj.value]")):
         region = [m for m in gd.live_nodes() if any(gd.nodes[i].kind == "branch" and gd.nodes[i].polarity and isinstance(gd.nodes[i].test, ast.Call)
@@ -250,6 +289,10 @@ def check(ck):
             ck.require(okk, "C07.7", "%s: config handed to the dispatcher constructor" % q.fn(fi), "Param(config) itself",
                        "the server does not keep the caller's Config object", q.loc(fi, fi.node))
             continue
+        if not stores:
+            ck.bad("C07.7", "%s: self.%s = config" % (q.fn(fi), field),
+                   "the constructor does not keep the configuration it is given in self.%s (objects of this class, and of the classes that "
+                   "rely on this constructor, have no or a foreign configuration)" % field, q.loc(fi, fi.node))
         for n in stores:
             n7 += 1
             t = prov.origin(gi, n, n.ast.value)
@@ -259,6 +302,7 @@ def check(ck):
     if n7 < 3:
         raise AnalysisError("anchor vanished: config stores of the long-lived objects (found %d)" % n7)
     common.check_config_forwarding(ck, "C07.7")
+    common.check_config_defaults(ck, "C07.7", ("use_jsonclass", "serialize_method", "ignore_attribute"))
     ck.floor("C07.7", 9)
 
     # ---- C07.6 the per-request configuration copy keeps the serialisation settings ------------------------
